@@ -31,6 +31,7 @@ type wcfg struct {
 	Passive  bool   `json:"passive"`
 	Active   bool   `json:"active"`
 	WSPool   bool   `json:"wspool"`
+	Plugins  bool   `json:"plugin_chain"`
 	G        int    `json:"goroutines"`
 	Ops      int    `json:"ops_per_goroutine"`
 	LongRun  bool   `json:"spans_a_probe_tick"`
@@ -77,6 +78,14 @@ func runWorkload(t *testing.T, c wcfg, overlap *[len14]int64) string {
 		}
 		if c.WSPool {
 			cfg.LoadBalancer.WebSocketPool = config.WebSocketPoolConfig{Enabled: true, MaxIdle: 2, MaxActive: 8, IdleTimeoutSeconds: 1}
+		}
+		if c.Plugins {
+			cfg.Plugins.Enabled = true
+			cfg.Plugins.Chain = []config.PluginConfig{{Name: "logging"}, {Name: "request-id"},
+				{Name: "size_limit", Config: map[string]interface{}{"max_request_body": 1 << 20, "max_response_body": 1 << 20}},
+				{Name: "gzip", Config: map[string]interface{}{"level": 5, "min_size": 1, "content_types": []interface{}{"text/"}}},
+				{Name: "headers", Config: map[string]interface{}{"set": map[string]interface{}{"X-App": "Helios"}, "request_set": map[string]interface{}{"X-From": "LB"}}}}
+			cfg.Logging.RequestID.Enabled, cfg.Logging.Trace.Enabled = true, true
 		}
 		cfg.AdminAPI.Enabled, cfg.AdminAPI.Port = true, 9091
 	}})
@@ -127,7 +136,7 @@ func runWorkload(t *testing.T, c wcfg, overlap *[len14]int64) string {
 						b.Expect(id, script(kind))
 					}
 					_, _ = lab.Do(l.Addr, &lab.RawRequest{Method: "GET", Target: "/w", Framing: "none", Header: []lab.KV{{K: "Host", V: "h"},
-						{K: "X-Verif-Case", V: id}, {K: "X-Forwarded-For", V: fmt.Sprintf("10.3.%d.%d", g, rng.Intn(4))}}}, 5*time.Second)
+						{K: "X-Verif-Case", V: id}, {K: "Accept-Encoding", V: "gzip"}, {K: "X-Forwarded-For", V: fmt.Sprintf("10.3.%d.%d", g, rng.Intn(4))}}}, 5*time.Second)
 					l.ForgetAll(id)
 				case "add":
 					n := atomic.AddInt32(&extraSeq, 1)
@@ -192,7 +201,7 @@ func runWorkload(t *testing.T, c wcfg, overlap *[len14]int64) string {
 const len14 = 14
 
 func TestC12ConcurrentWorkloads(t *testing.T) {
-	sub := lab.Sub("concurrent-workloads", "all 5 strategies x 2^5 on/off combinations of breaker, limiter, passive checks, active checks, websocket pool are cycled (160 configurations); for each a workload of 8-64 goroutines x 6-20 operations over "+
+	sub := lab.Sub("concurrent-workloads", "all 5 strategies x 2^6 on/off combinations of breaker, limiter, passive checks, active checks, websocket pool, plugin chain (logging, request-id, size_limit, gzip, headers + request/trace IDs) are cycled (320 configurations); for each a workload of 8-64 goroutines x 6-20 operations over "+
 		"{request to good/5xx/aborting/unreachable backend over real sockets, admin add/remove/set_strategy/list, /metrics, /health, MarkBackendUnhealthy, IsBackendHealthy, pool put/get/close/stats, Stop} with scripts derived from VERIF_SEED; "+
 		"binary built with -race; oracle: no race report with any frame, no handler panic, no fatal error, every workload returns (20 s no-progress watchdog); every workload is non-trivial (>=3 operation kinds incl. mutating ones); distinct = distinct (configuration, goroutines, ops, seed)")
 	lab.Assume("the race detector decides only the interleavings that were executed (their happens-before class); L2 handler composition replicates cmd/helios/server.go")
@@ -205,15 +214,15 @@ func TestC12ConcurrentWorkloads(t *testing.T) {
 	perConfig := lab.Scale(1, 12)
 	idx := 0
 	for si, s := range lab.Strategies {
-		for mask := 0; mask < 32; mask++ {
+		for mask := 0; mask < 64; mask++ {
 			for r := 0; r < perConfig; r++ {
 				idx++
 				if idx%lab.Shards() != lab.Shard() {
 					continue
 				}
-				c := wcfg{Strategy: s, Breaker: mask&1 != 0, Limiter: mask&2 != 0, Passive: mask&4 != 0, Active: mask&8 != 0, WSPool: mask&16 != 0,
+				c := wcfg{Strategy: s, Breaker: mask&1 != 0, Limiter: mask&2 != 0, Passive: mask&4 != 0, Active: mask&8 != 0, WSPool: mask&16 != 0, Plugins: mask&32 != 0,
 					G: []int{8, 16, 32, 64}[(idx+r)%4], Ops: 6 + (idx*7+r)%15, Seed: int64(lab.Seed()%1000003)*1000 + int64(idx)}
-				c.LongRun = c.Active && (idx+si)%8 == 0
+				c.LongRun = c.Active && (idx+si)%16 == 0
 				name := fmt.Sprintf("%s-m%02d-r%d", s, mask, r)
 				var v string
 				ok := t.Run(name, func(t *testing.T) { v = runWorkload(t, c, &overlap) })
